@@ -110,7 +110,25 @@ def flatten(mdl):
             walk(sub, prefix + label + "/")
         for e in circ.get("edges", []):
             s, t = (prefix + e["src"]).split("/"), (prefix + e["tgt"]).split("/")
-            edges.append({"src": ["/".join(s[:-2]), s[-2], s[-1]], "tgt": ["/".join(t[:-2]), t[-2], t[-1]], "w": str(F(e["w"]))})
+            src, tgt = ["/".join(s[:-2]), s[-2], s[-1]], ["/".join(t[:-2]), t[-2], t[-1]]
+            if e.get("template"):
+                # an edge with an EdgeTemplate is its own little node: source -> edge operator input, edge operator output -> target (weight)
+                et = mdl["edge_templates"][e["template"]]
+                op = mdl["ops"][et["op"]]
+                ov = e.get("values", {})
+                vs, output, inp = [], None, None
+                for name, d in op["vars"].items():
+                    vs.append({"name": name, "decl": "input" if d["decl"] == "input" else "other", "value": str(F(ov.get(name, d["value"])))})
+                    if d["decl"] == "output":
+                        output = name
+                    if d["decl"] == "input":
+                        inp = name
+                epath = f"__edge{len(nodes)}_{len(edges)}"
+                nodes.append({"path": epath, "ops": [{"name": op["name"], "output": output, "vars": vs, "eqs": op["eqs"]}], "is_edge": True})
+                edges.append({"src": src, "tgt": [epath, op["name"], inp], "w": "1"})
+                edges.append({"src": [epath, op["name"], output], "tgt": tgt, "w": str(F(e["w"]))})
+            else:
+                edges.append({"src": src, "tgt": tgt, "w": str(F(e["w"]))})
     walk(mdl["circuit"], "")
     # per-node value updates applied after template construction (update_var / node_values), keyed by full path
     for path, val in mdl.get("post_values", {}).items():
@@ -240,9 +258,16 @@ def build_pyrates(mdl, style=None, rng=None, share_templates=True):
             operators = [ops[o] for o in nt["ops"]]
         nts[ntid] = NodeTemplate(name=nt["name"], operators=operators, path=None)
 
+    from pyrates import EdgeTemplate
+    ets = {}
+    for etid, et in mdl.get("edge_templates", {}).items():
+        ets[etid] = EdgeTemplate(name=et["name"], operators=[ops[et["op"]]], path=None)
+
     def mk(circ):
-        edges = [(e["src"], e["tgt"], None, dict({"weight": float(F(e["w"]))}, **({"delay": float(F(e["delay"]))} if e.get("delay") is not None else {}),
-                                                 **({"spread": float(F(e["spread"]))} if e.get("spread") is not None else {})))
+        edges = [(e["src"], e["tgt"], ets[e["template"]] if e.get("template") else None,
+                  dict({"weight": float(F(e["w"]))}, **({"delay": float(F(e["delay"]))} if e.get("delay") is not None else {}),
+                       **({"spread": float(F(e["spread"]))} if e.get("spread") is not None else {}),
+                       **{f"{mdl['ops'][mdl['edge_templates'][e['template']]['op']]['name']}/{k}": float(F(v)) for k, v in (e.get("values") or {}).items()}))
                  for e in circ.get("edges", [])]
         if circ.get("circuits"):
             subs = {label: mk(sub) for label, sub in circ["circuits"].items()}
